@@ -106,18 +106,24 @@ class FileObj:
         pass
 
     def _text_rows(self):
+        """the file as text: one line per row, cells joined by tabs (cells may be bounded symbolic strings)"""
+        from . import symstr
         self.fs._op("read", self.path)
         rows = []
         for r in self.fs.files[self.path]:
-            for c in r:
-                if not isinstance(c, builtins.str):
-                    from .sym import Unsupported
-                    raise Unsupported("text read of a file holding symbolic cells")
-            rows.append("\t".join(r) + "\n")
+            line = ""
+            for i, c in enumerate(r):
+                if i:
+                    line = line + "\t"
+                line = line + (c if isinstance(c, (builtins.str, symstr.SStr)) else to_text(c))
+            rows.append(line + "\n")
         return rows
 
     def read(self, *a):
-        return "".join(self._text_rows())
+        out = ""
+        for ln in self._text_rows():
+            out = out + ln
+        return out
 
     def readlines(self):
         return self._text_rows()
